@@ -969,9 +969,61 @@ def _reuse_probes(ctx):
                 shutil.rmtree(tmp, ignore_errors=True)
 
 
+def _nested_probes(ctx):
+    """Two blocks of ONE Editor instance open at the same time (a file outside the include graph edited while the recursive
+    block is open; a second recursive block inside the first): each block writes exactly its own files, nothing else is
+    touched, removed or rewritten."""
+    import os, tempfile, shutil
+    from autobean_refactor import editor as editor_lib
+    for inner_kind in ('file', 'recursive'):
+        for edit_outer in (False, True):
+            tmp = tempfile.mkdtemp(prefix='verif-c16-nested-')
+            cwd = os.getcwd()
+            rep = {'probe': 'nested', 'inner': inner_kind, 'edit_outer': edit_outer}
+            try:
+                os.makedirs(os.path.join(tmp, 'sub'))
+                files0 = {'main.bean': b'include "sub/a.bean"\r\n2000-01-01 open Assets:A\r\n', os.path.join('sub', 'a.bean'): b'2000-01-02 open Assets:B\n',
+                          'archive.bean': b'include "old.bean"\n2000-01-03 open Assets:C\n', 'old.bean': b'2000-01-04 open Assets:D\n', 'bystander.bean': b'; nobody opens me\n'}
+                for k, v in files0.items():
+                    with open(os.path.join(tmp, k), 'wb') as f:
+                        f.write(v)
+                os.chdir(tmp)
+                ed = editor_lib.Editor()
+                expect = dict(files0)
+                with ed.edit_file_recursive('main.bean') as outer:
+                    if inner_kind == 'file':
+                        with ed.edit_file('archive.bean') as a:
+                            a.raw_directives[-1].account = 'Assets:Inner'
+                            expect['archive.bean'] = pr(a).encode()
+                    else:
+                        with ed.edit_file_recursive('archive.bean') as inner:
+                            for k, m in inner.items():
+                                if k.endswith('old.bean'):
+                                    m.raw_directives[-1].account = 'Assets:Inner'
+                                    expect['old.bean'] = pr(m).encode()
+                    if edit_outer:
+                        for k, m in outer.items():
+                            if k.endswith('a.bean'):
+                                m.raw_directives[-1].account = 'Assets:Outer'
+                                expect[os.path.join('sub', 'a.bean')] = pr(m).encode()
+                ctx.case(('nested', inner_kind, edit_outer))
+                for k, v in expect.items():
+                    path = os.path.join(tmp, k)
+                    if not os.path.exists(path):
+                        ctx.oracle_fail('C16:file-vanished:nested', f'{k} was deleted although no block removed it from its mapping', rep)
+                    elif open(path, 'rb').read() != v:
+                        ctx.oracle_fail('C16:content:nested', f'{k} does not hold what the block that owns it printed (or, untouched, what it held before)', rep)
+            except Exception as e:
+                ctx.oracle_fail(f'C16:exception:nested:{type(e).__name__}', repr(e)[:200], rep)
+            finally:
+                os.chdir(cwd)
+                shutil.rmtree(tmp, ignore_errors=True)
+
+
 def run(ctx):
     _rekey_probes(ctx)
     _reuse_probes(ctx)
+    _nested_probes(ctx)
     _run_many(ctx, ctx.scale(150, 5000), with_model=ctx.extra.get('model_available', True))
 
 
@@ -983,10 +1035,10 @@ def replay(ctx, data):
     spec = data.get('replay') or data.get('first_diverging_replay')
     if not spec:
         return False
-    if spec.get('probe') in ('rekey', 'reuse'):
+    if spec.get('probe') in ('rekey', 'reuse', 'nested'):
         import check
         c = check.Ctx('C16', 'quick', ctx.seed)
-        (_rekey_probes if spec['probe'] == 'rekey' else _reuse_probes)(c)
+        {'rekey': _rekey_probes, 'reuse': _reuse_probes, 'nested': _nested_probes}[spec['probe']](c)
         return not c.oracle_fails
     res = run_scenario(spec, want_line=False)
     _classify_unexpected(spec, res)
